@@ -11,7 +11,7 @@ import (
 func init() {
 	register(&propInfo{
 		ID:          "C06",
-		Explanation: "Value-origin and path analysis of cancellation: (R06.1) the cancel notification a waiting call sends when its context is done uses the method name the peer dispatches to its cancel handler, carries that same call's request id, is sent only in the arm watching the call's own context, and is built per call; (R06.2) the subscription watcher is started with the subscription's context and the id of the response that announced the channel (the request id, not the channel id), waits for that context before sending, and sends its own id argument under the cancel method; (R06.3) the server's cancel handler invokes only the cancel function it looked up under the id decoded from this frame; (R06.4) closed world: every invocation of a context.CancelFunc in the library is one of {the per-call completion closure under !keep, the cancel handler's looked-up entry, the failer's sweep, the loop's deferred cancel}; in the dispatcher every non-deferred completion call lies on a path that returns without running the handler; (R06.5) the call spawner registers the cancel function, paired with the context given to the handler, under the call's id before the handler goroutine is started and in the executor's own (in-order) goroutine; (R06.6) HTTP: the server hands the request's context to the reader path, the client attaches the caller's context to the HTTP request, and the context placed in the handler's argument list derives from the dispatcher's context parameter; over WebSocket it derives from the per-connection context.",
+		Explanation: "Value-origin and path analysis of cancellation: (R06.1) the cancel notification a waiting call sends when its context is done uses the method name the peer dispatches to its cancel handler, carries that same call's request id, is sent only in the arm watching the call's own context, and is built per call; (R06.2) the subscription watcher is started with the subscription's context and the id of the response that announced the channel (the request id, not the channel id), waits for that context before sending, and sends its own id argument under the cancel method; (R06.3) the server's cancel handler invokes only the cancel function it looked up under the id decoded from this frame; (R06.4) closed world: every invocation of a context.CancelFunc in the library is one of {the per-call completion closure under !keep, the cancel handler's looked-up entry, the failer's sweep, the loop's deferred cancel}; in the dispatcher every non-deferred completion call lies on a path that returns without running the handler; (R06.5) the call spawner registers the cancel function, paired with the context given to the handler, under the call's id before the handler goroutine is started and in the executor's own (in-order) goroutine; (R06.6) HTTP: the server hands the request's context to the reader path, the client attaches the caller's context to the HTTP request, and the context placed in the handler's argument list derives from the dispatcher's context parameter; over WebSocket it derives from the per-connection context. (R06.10) what is decided from the method descriptor is read, and handed to the completion callback, after name and alias resolution.",
 		NotDecided:  "Instants and races of cancellation; that a handler observes its context; peer ping/idle-timer effects on handler contexts (keepalive is decided under C17).",
 		Assumptions: []string{"the cancel method name is the constant under which the frame switch reaches the cancel handler"},
 		Run:         runC06,
